@@ -18,6 +18,9 @@ pub struct MaxSingleDayCosts {
     pub total: GreaterEqualZeroDecimal,
     // the securities values, which should sum to total
     pub sec_max_cost_for_day: HashMap<Security, GreaterEqualZeroDecimal>,
+    // the cost of each security after its last transaction of that day. This
+    // (and not the day's maximum) is what later days without a transaction show.
+    pub sec_closing_cost_for_day: HashMap<Security, GreaterEqualZeroDecimal>,
 }
 
 impl MaxSingleDayCosts {
@@ -26,6 +29,7 @@ impl MaxSingleDayCosts {
             day: d,
             total: GreaterEqualZeroDecimal::zero(),
             sec_max_cost_for_day: HashMap::new(),
+            sec_closing_cost_for_day: HashMap::new(),
         }
     }
 
@@ -109,6 +113,9 @@ fn calc_max_day_cost_per_sec(all_deltas: &Vec<TxDelta>) -> MaxDayCosts {
         let day_max_costs: &mut MaxSingleDayCosts =
             max_costs_by_day.get_mut(&date_from_delta).unwrap();
         day_max_costs.observe_new_cost(sec, total_acb);
+        // Deltas of one security are in chronological order, so the last one
+        // of the day wins.
+        day_max_costs.sec_closing_cost_for_day.insert(sec.clone(), total_acb);
 
         if !day_zero_sec_costs.contains_key(sec) {
             day_zero_sec_costs.insert(
@@ -133,7 +140,7 @@ fn calc_max_day_cost_per_sec(all_deltas: &Vec<TxDelta>) -> MaxDayCosts {
         let max_costs = max_costs_by_day.get_mut(&day).unwrap();
         for &sec in &sorted_secs {
             let last_acb = *max_costs
-                .sec_max_cost_for_day
+                .sec_closing_cost_for_day
                 .get(sec)
                 .or_else(|| last_acbs.get(sec))
                 .unwrap_or_else(|| &day_zero_sec_costs.get(sec).unwrap().1);
